@@ -101,6 +101,25 @@ Theorem C06_call_repeatable (c : call) (before between : list call) :
 Proof. exact (call_repeatable c before between). Qed.
 Print Assumptions C06_call_repeatable.
 
+(** ... and a call answered through a short path leaves nothing behind: every call except Factorial and the Factorial branch of
+    Binomial_Coefficient (0 <= k <= n <= 170) leaves the process state exactly as it found it - Binomial_Coefficient(n,k) with k > n
+    (answered 0), with n > 170 or with a negative argument included, and the inverses whatever path they take. *)
+Theorem C06_call_leaves_no_trace (tbl : list R) (c : call) :
+  match c with
+  | CFact _ => True
+  | CBinom n k => (k < 0 \/ n < 0 \/ n < k \/ 170 < n)%Z -> fst (call_step ROps tbl c) = tbl
+  | _ => fst (call_step ROps tbl c) = tbl
+  end.
+Proof. exact (call_leaves_no_trace tbl c). Qed.
+Print Assumptions C06_call_leaves_no_trace.
+
+(** Inv_GammaP's Halley loop answers 0 at once when the iterate at its test is <= 0 (the initial guess (p/t)^(1/a) underflows to 0
+    for small a and small p: the solution is below the smallest double). *)
+Theorem C06_inverse_underflow_returns_zero (p a gln a1 lna1 afac x : R) (n : nat) : x <= 0 ->
+  halley ROps p a gln a1 lna1 afac (S n) x = Ok 0.
+Proof. exact (halley_nonpos_returns_zero p a gln a1 lna1 afac x n). Qed.
+Print Assumptions C06_inverse_underflow_returns_zero.
+
 (** "P and Q ... sum to one" *)
 Theorem C06_p_plus_q (x a p q : R) : gammap ROps x a = Ok p -> gammaq ROps x a = Ok q -> p + q = 1.
 Proof. exact (p_plus_q x a p q). Qed.
